@@ -30,7 +30,7 @@ VERIF = os.path.dirname(os.path.dirname(os.path.dirname(os.path.abspath(__file__
 
 def plan(tier, seed):
     q = tier == "quick"
-    specs = [{"kind": "verify", "count": 7 if q else 40} for _ in range(6 if q else 12)]
+    specs = [{"kind": "verify", "count": 12 if q else 100} for _ in range(6 if q else 14)]
     specs.append({"kind": "sign_artifacts", "count": 1 if q else 6})
     specs.append({"kind": "gpg_sign", "shim": True, "count": 1 if q else 5})
     return specs
